@@ -386,9 +386,10 @@ def regenerate(ctx):
                  os.path.join(C.COQ, "gen", "C07Filters.v"))
         return True
     except (Unsupported, SyntaxError, OSError, KeyError, AssertionError) as e:
-        ctx.fail("translator gen/c07_filters.py no longer recognises filters.py/config.py: %s" % e,
-                 dict(correspondence="gen/c07_filters.py -> coq/gen/C07Filters.v", error=str(e)), kind="tie", no_input=True)
-        return False
+        if not C.tie_fallback(ctx, "translator gen/c07_filters.py no longer recognises filters.py/config.py: %s" % e,
+                 dict(correspondence="gen/c07_filters.py -> coq/gen/C07Filters.v", error=str(e)), kind="tie", no_input=True):
+            return False
+        return True
 
 
 # --------------------------------------------------------------------------
